@@ -30,3 +30,7 @@ Definition ber_trace t pool codes := trace (ber_cnt t) pool [] codes.
 Definition bler_trace t bsz pool codes := trace (bler_count t bsz) pool [] codes.
 Definition oneshot_code (c : option (N * N)) : list N :=
   match c with Some c => out_code (oneshot c) | None => [0%N] end.
+
+(* a batch of multi-dimensional items (each a list of rows): blocks are cut from the flattened item *)
+Definition bler_multidim (bs : nat) (items : list (list (list (Q * Q)))) : list N :=
+  oneshot_code (bler_count 0 (Some bs) (map (@concat (Q * Q)) items)).
